@@ -52,6 +52,11 @@ Section Contract.
   Definition fin_adv : Prop := forall c S lo n, CFin c S lo -> lo <= n ->
       exists c' lo2, cadv c n = Ok (None, c') /\ lo2 <= n /\ CFin c' S lo2.
 
+  (* a child that was not called yet: its first call is Next (every searcher initialises its
+     children with Next; BooleanSearcher.Advance as a first call would skip the first should match) *)
+  Definition new_exact (CNew : C -> (Z -> bool) -> Prop) : Prop := forall c S, CNew c S ->
+      exists r c', cnext c = Ok (r, c') /\ exact_post S 0 r c'.
+
   Record contract : Prop := {
     ct_next : next_exact;
     ct_adv : adv_exact;
@@ -61,6 +66,7 @@ End Contract.
 
 Arguments exact_post {C}.
 Arguments contract {C}.
+Arguments new_exact {C}.
 
 (* ---------- nth_error / set_nth ---------- *)
 
